@@ -177,7 +177,12 @@ func campaignC18(p *Parser, req *Request, resp *Response) {
 		return
 	}
 	if h0 != h1 {
-		add("grammar-mutated", "the package-level grammar was modified by the concurrent parses", nil)
+		// Not a violation by itself: a correctly synchronised, lazily filled cache
+		// inside the grammar would also change the hash. What the property forbids
+		// - a data race, or a call that returns something else than alone - is
+		// judged by the race build and by the comparisons below.
+		resp.stat("grammar_value_changed_during_run", 1)
+		resp.Notes = append(resp.Notes, "the package-level grammar value changed during the concurrent run of "+p.Name)
 	}
 	for i := range clients {
 		for j := range clients[i] {
